@@ -382,12 +382,15 @@ def prop(pid, **kw):
     PROPS[pid] = kw
 
 
-prop("C02", modules=["SasLexer.Properties.C02"], theorems=["SasLexer.kernel_C02_boundaries", "SasLexer.kernel_C02_last_eof", "SasLexer.kernel_C02_monotone_debug", "SasLexer.kernel_C02_monotone_release", "SasLexer.run_KMono"],
+prop("C02", modules=["SasLexer.Properties.C02"], theorems=["SasLexer.kernel_C02_boundaries", "SasLexer.kernel_C02_last_eof", "SasLexer.kernel_C02_monotone_debug", "SasLexer.kernel_C02_monotone_release", "SasLexer.run_KMono",
+                                                            "SasLexer.C02_model_single_eof", "SasLexer.model_single_eof", "SasLexer.awp_sound", "SasLexer.mainLoop_awp"],
      variants=["dev", "rel", "dev-sep", "rel-sep"], proj=proj_tok_bytes)
 prop("C03", modules=["SasLexer.Properties.C03"], theorems=["SasLexer.kernel_C03", "SasLexer.C03_model"],
      variants=["dev", "rel", "rel-sep"], proj=proj_positions)
 prop("C04", modules=["SasLexer.Properties.C04"],
-     theorems=["SasLexer.kernel_C04_line_positions", "SasLexer.DBuf.resolved_lines_exact", "SasLexer.C04_of_lineWF", "SasLexer.lineWFB_sound"],
+     theorems=["SasLexer.kernel_C04_line_positions", "SasLexer.DBuf.resolved_lines_exact", "SasLexer.C04_of_lineWF", "SasLexer.lineWFB_sound",
+               "SasLexer.C04_model", "SasLexer.C04_model_of_mono", "SasLexer.model_lines_exact", "SasLexer.awp_sound", "SasLexer.step_DInv",
+               "SasLexer.mainLoop_awp", "SasLexer.lexToken_awp", "SasLexer.finalizeLoop_inert"],
      variants=["dev", "rel", "rel-sep"], proj=proj_lines)
 prop("C05", modules=["SasLexer.Properties.C05"], theorems=["SasLexer.C05_pure", "SasLexer.C05_wf_needed", "SasLexer.DBuf.resolved_eq_accessors"],
      variants=["dev", "rel", "rel-sep"], proj=proj_views)
